@@ -1316,3 +1316,18 @@ Proof.
     rewrite map_app in ND. cbn [map] in ND. apply NoDup_remove_2 in ND. apply ND. rewrite <- map_app. apply in_map. exact X2. }
   rewrite dir_map_insert by exact Hfresh. rewrite E6, <- E2. rewrite (dir_map_remove a b e key ND). reflexivity.
 Qed.
+
+(* ================================================================ 8. concrete directories for the Examples in Props/ *)
+Definition ex_name1 : str := [104; 101; 108; 108; 111; 32; 119; 111; 114; 108; 100; 46; 116; 120; 116].  (* "hello world.txt" *)
+Definition ex_alias1 : list N := [72; 69; 76; 76; 79; 87; 126; 49; 84; 88; 84].                            (* "HELLOW~1TXT" *)
+Definition ex_alias2 : list N := [66; 32; 32; 32; 32; 32; 32; 32; 32; 32; 32].                              (* "B          " *)
+Definition ex_del : list N := 229 :: repeat_N 0 31.
+Definition ex_live : list N := sfn_encode (ex_sfn ex_alias2).
+(* an 8-slot fixed root holding "hello world.txt" (2 long-name slots + short slot) *)
+Definition ex_dir1 : slots := snd (write_entry FixedRoot 0 (repeat_N zero_slot 8) ex_name1 (ex_sfn ex_alias1)).
+(* ... and then "b" (1 + 1 slots) *)
+Definition ex_dir2 : slots := snd (write_entry FixedRoot 0 ex_dir1 [98] (ex_sfn ex_alias2)).
+
+(* the three finite-map statements as one theorem, and the two slot-clause statements as one (Props/ states them in full) *)
+Definition dir_refines_map := conj create_refines_map (conj remove_refines_map rename_refines_map).
+Definition slot_clauses_preserved := conj write_entry_keeps_wf mark_deleted_keeps_wf.
